@@ -13,6 +13,9 @@ Section FrameTx.
   Hypothesis Htrans : forall a b c, R a b -> R b c -> R a c.
   Hypothesis Hput : forall c a x, R c (put c a x).
   Hypothesis Hfee : forall c fee, R c (addfee c fee).
+  Hypothesis Hph : forall c a i d, R c (put_holding_delta c a i d).
+  Hypothesis Hpp : forall c a i d, R c (put_params_delta c a i d).
+  Hypothesis Hcr : forall c i v, R c (set_creatable c i v).
   Hypothesis Haddtx : forall c t l s le, R c (addtx c t l s le).
 
   Local Notation keeps := (keeps R).
@@ -26,7 +29,8 @@ Section FrameTx.
       | |- EvalCowProofs.keeps _ (guard _ _) => apply (keeps_guard R Hrefl)
       | |- EvalCowProofs.keeps _ (m_checkdup _ _ _ _ _) => apply (keeps_checkdup R Hrefl)
       | |- EvalCowProofs.keeps _ (when _ _) => apply (keeps_when R Hrefl)
-      | |- EvalCowProofs.keeps _ (apply_transaction _ _) => apply (keeps_apply_transaction R Hrefl Htrans Hput Hfee)
+      | |- EvalCowProofs.keeps _ m_counter => apply (keeps_counter R Hrefl)
+      | |- EvalCowProofs.keeps _ (apply_transaction _ _ _) => apply (keeps_apply_transaction R Hrefl Htrans Hput Hfee Hph Hpp Hcr)
       end.
 
   Lemma keeps_addtx t l s le : keeps (m_addtx t l s le).
@@ -116,7 +120,7 @@ Lemma same_tx_refl c : same_tx c c. Proof. repeat split. Qed.
 Lemma same_tx_trans a b c : same_tx a b -> same_tx b c -> same_tx a c.
 Proof. intros (H1 & H2 & H3) (H4 & H5 & H6). repeat split; congruence. Qed.
 
-Lemma apply_transaction_same_tx E tx c : same_tx c (fst (apply_transaction E tx c)).
+Lemma apply_transaction_same_tx E tx ctr c : same_tx c (fst (apply_transaction E tx ctr c)).
 Proof.
   apply (keeps_apply_transaction same_tx same_tx_refl same_tx_trans); intros; repeat split.
 Qed.
@@ -148,6 +152,8 @@ Lemma transaction_records E tx c c' u :
 Proof.
   unfold transaction. intros H.
   apply bind_ok in H. destruct H as (c1 & [] & H1 & H).
+  apply bind_ok in H. destruct H as (c1' & ctr & Hctr & H).
+  unfold m_counter in Hctr. inversion Hctr. subst c1' ctr. clear Hctr.
   apply bind_ok in H. destruct H as (c2 & ad & H2 & H).
   apply bind_ok in H. destruct H as (c3 & [] & H3 & H).
   unfold m_addtx in H. inversion H. subst c'. clear H.
@@ -164,7 +170,7 @@ Proof.
         first [apply keeps_guard | apply keeps_checkdup | apply keeps_lookup]; reflexivity. }
     specialize (K c). rewrite H1 in K. cbn [fst] in K. subst c1. apply same_tx_refl. }
   assert (S2 : same_tx c1 c2).
-  { pose proof (apply_transaction_same_tx E tx c1) as K. rewrite H2 in K. exact K. }
+  { pose proof (apply_transaction_same_tx E tx (counter c1) c1) as K. rewrite H2 in K. exact K. }
   assert (S3 : c3 = c2).
   { apply when_ok in H3. destruct H3 as [[_ H3]|[_ ->]]; [|reflexivity].
     unfold check_min_balance in H3. now inversion H3. }
